@@ -24,7 +24,11 @@ import (
 	"testing"
 	"time"
 
+	ssi "github.com/nuts-foundation/go-did"
 	"github.com/nuts-foundation/nuts-node/storage"
+	"github.com/nuts-foundation/nuts-node/vcr"
+	"github.com/nuts-foundation/nuts-node/vcr/credential"
+	"github.com/nuts-foundation/nuts-node/vcr/signature/proof"
 	"verif/lib/ev"
 	"verif/lib/iamflow"
 	"verif/lib/node"
@@ -169,8 +173,10 @@ func TestCheck(t *testing.T) {
 		"(d) verifier-side cases with harness-served lists: refresh, foreign list id, wrong purpose, bad signature, garbage. Distinct by (scenario, issuer/page, step).")
 	r.Require(200, 40)
 	r.Assume("SQLite with a single connection (the only SQL engine in the sandbox): database transactions are serialised, so row-lock behaviour of other engines is not exercised")
-	r.Assume("network (did:nuts) revocations and their forgeries are not generated by this check")
+	r.Assume("signed revocation documents are registered through the verifier's RegisterRevocation (the entry the network ambassador calls) with hosted did:web parties; the did:nuts DAG transport of revocations is not exercised")
 
+	host, restore := iamflow.InstallDIDHost() // hosted did:web identities for the signed-revocation cases
+	defer restore()
 	w := iamflow.NewWorld(t, iamflow.Options{})
 	n := w.N
 	issuers := []iamflow.Subject{w.Verifier, w.Client}
@@ -397,12 +403,53 @@ func TestCheck(t *testing.T) {
 			checkLists(step + "-after-double-revoke")
 		}
 	}
+	// list re-issue racing revocations: the stored lists are made to look close to expiry (so that serving them re-signs them)
+	// while credentials on the same lists are being revoked and the lists fetched from several goroutines
+	for round := 0; round < r.Pick(12, 60); round++ {
+		if res := db.Exec("UPDATE status_list_credential SET expires = ?", time.Now().Add(30*time.Minute).Unix()); res.Error != nil {
+			r.Fatalf("ageing lists: %v", res.Error)
+		}
+		var victims []*issuedCred
+		for _, i := range rnd.Perm(len(creds)) {
+			if !creds[i].revoked && len(victims) < 2 {
+				victims = append(victims, creds[i])
+			}
+		}
+		if len(victims) == 0 {
+			break
+		}
+		var wg sync.WaitGroup
+		for _, v := range victims {
+			for k := 0; k < 3; k++ {
+				wg.Add(1)
+				go func(l string) { defer wg.Done(); _, _ = fetchList(l) }(v.slot.list)
+			}
+			wg.Add(1)
+			go func(v *issuedCred) { defer wg.Done(); revoke(v) }(v)
+		}
+		wg.Wait()
+		r.Count("reissue_vs_revoke_rounds", 1)
+		step := fmt.Sprintf("reissue-race%d", round)
+		checkLists(step)
+		for _, v := range victims {
+			ok, _ := verifyVC(n, v.doc)
+			r.Case("verdict/"+step, true)
+			r.Count("verdicts", 1)
+			if ok {
+				r.Violation("C11/verdict/revoked-verifies", "credential revoked while its list was being re-issued still verifies ("+step+")", map[string]any{"credential": v.id, "slot": v.slot})
+			}
+		}
+	}
+
 	// re-signing: make the stored list credentials look close to expiry so that the next request re-issues them
 	if res := db.Exec("UPDATE status_list_credential SET expires = ?", time.Now().Add(30*time.Minute).Unix()); res.Error != nil {
 		r.Fatalf("ageing lists: %v", res.Error)
 	}
 	checkLists("after-resign")
 	checkVerdicts("after-resign", 20)
+
+	// signed revocation documents (the did:nuts network form), with hosted did:web parties so that every forgery can be signed for real
+	signedRevocations(r, n, host)
 
 	// restart of the node on the same data directory: revocations are permanent
 	dataDir := n.DataDir
@@ -573,4 +620,110 @@ func externalLists(t *testing.T, r *ev.Run, n *node.Node) {
 		r.Fatalf("the node never fetched a harness-served status list: verifier-side cases observed nothing")
 	}
 	r.Sample(map[string]any{"scenario": "external-lists", "fetches": hits, "cases": r.Get("external_list_cases")})
+}
+
+// ---- signed revocation documents ---------------------------------------------------------------------------
+
+func signedRevocations(r *ev.Run, n *node.Node, host *iamflow.DIDHost) {
+	vcrEngine := node.Engine[vcr.VCR](n)
+	if vcrEngine == nil {
+		r.Fatalf("VCR engine not found")
+	}
+	alice := host.Identity("did:web:revoker.example:iam:alice")
+	root := host.Identity("did:web:revoker.example") // its DID is a textual prefix of alice's
+	alic := host.Identity("did:web:revoker.example:iam:alic")
+	mallory := host.Identity("did:web:elsewhere.example:mallory")
+	subject := iamflow.NewHolder()
+	now := time.Now()
+	mkCred := func(k int) (json.RawMessage, string) {
+		id := fmt.Sprintf("%s#%08d-0000-4000-8000-000000000000", alice.DID, k)
+		claims := map[string]any{"iss": alice.DID, "sub": subject.DID, "jti": id, "nbf": now.Add(-time.Minute).Unix(),
+			"vc": map[string]any{"@context": []string{"https://www.w3.org/2018/credentials/v1", "https://nuts.nl/credentials/v1"},
+				"type":              []string{"VerifiableCredential", "NutsOrganizationCredential"},
+				"credentialSubject": map[string]any{"id": subject.DID, "organization": map[string]any{"name": "Rev", "city": "Rev"}}}}
+		b, _ := json.Marshal(alice.SignJWT(map[string]any{"alg": "ES256", "typ": "JWT", "kid": alice.KID}, claims))
+		return b, id
+	}
+	revocation := func(signer *iamflow.Holder, issuer, subjectID string) credential.Revocation {
+		doc := map[string]any{"@context": []string{"https://nuts.nl/credentials/v1"}, "type": []string{"CredentialRevocation"},
+			"issuer": issuer, "subject": subjectID, "date": time.Now().UTC().Format(time.RFC3339)}
+		signed, err := signer.SignLDDoc(n, doc, proof.ProofOptions{Created: time.Now()})
+		if err != nil {
+			r.Fatalf("sign revocation: %v", err)
+		}
+		var rev credential.Revocation
+		if err := json.Unmarshal(signed, &rev); err != nil {
+			r.Fatalf("revocation does not parse: %v", err)
+		}
+		return rev
+	}
+	register := func(rev credential.Revocation) (err error) {
+		defer func() {
+			if p := recover(); p != nil {
+				err = fmt.Errorf("panic: %v", p)
+			}
+		}()
+		return vcrEngine.Verifier().RegisterRevocation(rev)
+	}
+	c1, id1 := mkCred(1)
+	c2, id2 := mkCred(2)
+	c3, _ := mkCred(3)
+	if ok, msg := verifyVC(n, c1); !ok {
+		r.Fatalf("calibration: credential of a hosted did:web issuer does not verify: %s", msg)
+	}
+	forged := func(name string, rev credential.Revocation, target json.RawMessage) {
+		err := register(rev)
+		r.Case("signed-revocation/forged/"+name, true)
+		r.Count("forged_revocations", 1)
+		if err == nil {
+			r.Violation("C11/revocation/forged-accepted/"+name, "a revocation that is not the credential issuer's was accepted ("+name+")", map[string]any{"revocation": rev})
+		}
+		if ok, msg := verifyVC(n, target); !ok {
+			r.Violation("C11/revocation/forged-effective/"+name, "credential no longer verifies after a forged revocation ("+name+"): "+msg, map[string]any{"revocation": rev})
+		}
+	}
+	forged("by-unrelated-party", revocation(mallory, mallory.DID, id1), c1)
+	forged("by-party-whose-did-is-a-prefix-of-the-issuers", revocation(root, root.DID, id1), c1)
+	forged("by-party-whose-did-is-a-text-prefix-without-boundary", revocation(alic, alic.DID, id1), c1)
+	forged("names-issuer-but-signed-by-and-pointing-at-other-key", func() credential.Revocation {
+		rv := revocation(mallory, alice.DID, id1)
+		return rv
+	}(), c1)
+	forged("names-issuer-and-its-key-but-signed-by-other-key", func() credential.Revocation {
+		rv := revocation(mallory, alice.DID, id1)
+		rv.Proof.VerificationMethod = ssi.MustParseURI(alice.KID)
+		return rv
+	}(), c1)
+	forged("subject-changed-after-signing", func() credential.Revocation {
+		rv := revocation(alice, alice.DID, id2)
+		rv.Subject = ssi.MustParseURI(id1)
+		return rv
+	}(), c1)
+	forged("proof-removed", func() credential.Revocation {
+		rv := revocation(alice, alice.DID, id1)
+		rv.Proof = nil
+		return rv
+	}(), c1)
+	// genuine revocation: effective and permanent; arriving before the credential was ever seen
+	if err := register(revocation(alice, alice.DID, id1)); err != nil {
+		r.Violation("C11/revocation/genuine-refused", "revocation by the credential's issuer refused: "+err.Error(), nil)
+	}
+	if err := register(revocation(alice, alice.DID, id2)); err != nil { // c2 has not been presented to the node yet
+		r.Violation("C11/revocation/genuine-refused", "revocation by the credential's issuer refused: "+err.Error(), nil)
+	}
+	for rep := 0; rep < 2; rep++ {
+		for name, c := range map[string]json.RawMessage{"seen-before": c1, "revocation-arrived-first": c2} {
+			ok, _ := verifyVC(n, c)
+			r.Case("signed-revocation/effective/"+name, true)
+			r.Count("verdicts", 1)
+			if ok {
+				r.Violation("C11/revocation/not-effective/"+name, "credential verifies although its issuer's revocation was registered ("+name+")", nil)
+			}
+		}
+	}
+	if ok, msg := verifyVC(n, c3); !ok {
+		r.Violation("C11/verdict/unrevoked-fails", "credential of the same issuer that was never revoked does not verify: "+msg, nil)
+	}
+	r.Count("hosted_did_documents_served", host.Served())
+	r.Sample(map[string]any{"scenario": "signed-revocations", "forged": r.Get("forged_revocations"), "did_documents_served": host.Served()})
 }
